@@ -17,7 +17,7 @@ use i_tree::EMPTY_REF;
 use std::collections::BTreeMap;
 
 pub const ORD_OPS: &[&str] = &[
-    "ins", "del", "get", "isempty", "clear", "hread", "hwrite", "hdel", "step", "walk", "sweep", "hsweep", "stepall",
+    "ins", "del", "get", "isempty", "clear", "hread", "hwrite", "hdel", "step", "walk", "sweep", "hsweep", "stepall", "run",
 ];
 pub const O_INS: u8 = 0;
 pub const O_DEL: u8 = 1;
@@ -32,6 +32,9 @@ pub const O_WALK: u8 = 9;
 pub const O_SWEEP: u8 = 10;
 pub const O_HSWEEP: u8 = 11;
 pub const O_STEPALL: u8 = 12;
+/// `run start len dir`: a monotone run of insertions (ascending dir=0 / descending dir=1), the
+/// insertion orders that drive the deepest recolouring and rotation chains
+pub const O_RUN: u8 = 13;
 
 /// Uniform view of the four (+1) collections.
 pub trait OrdColl: Sized {
@@ -911,6 +914,29 @@ impl<'a, C: OrdColl> OrdRun<'a, C> {
                         }
                     }
                 }
+                Step::Continue
+            }
+            O_RUN => {
+                let len = op.args[1].rem_euclid(200).max(1);
+                let desc = op.args[2].rem_euclid(2) == 1;
+                let start = op.args[0].rem_euclid(self.u as i64);
+                for j in 0..len {
+                    let k = if desc { start - j } else { start + j };
+                    if k < 0 || k >= self.u as i64 {
+                        break;
+                    }
+                    if self.model.contains_key(&(k as i32)) {
+                        continue;
+                    }
+                    match self.op_insert(i, &RawOp::new(O_INS, &[k])) {
+                        Step::Continue => {
+                            self.out.callbacks.pop();
+                        }
+                        Step::Stop => return Step::Stop,
+                    }
+                }
+                self.out.callbacks.push(0);
+                self.out.class(if desc { "run_descending" } else { "run_ascending" });
                 Step::Continue
             }
             O_STEPALL => {
